@@ -472,6 +472,10 @@ def check(run):
     run.prove(MODULE, THEOREMS)
     run.source_tie(['SrcCalc'], 'GeoVerif.Props.C07Src',
                    ['GV.C07Src.' + t for t in ('haversine_eq', 'bearing_eq', 'destination_eq', 'destinationDeg_eq')])
+    # `Coordinate.xyz` / `_from_xyz` / `dist_xyz_meters` from the text (lists, zip, sum) against the model's triples
+    run.source_tie(['SrcXyz'], 'GeoVerif.Props.C07SrcXyz', ['GV.C07SrcXyz.' + t for t in (
+        'xyz_eq', 'pySumList_three', 'distXyz_eq', 'fromXyz_ok', 'fromXyz_eq', 'fromXyz_assert',
+        'src_hav_eq_distXyz', 'src_distXyz_self', 'src_distXyz_symm')])
     rng = run.rng
     kinds = {}
 
